@@ -154,6 +154,7 @@ static uint64_t n_huge(void) { return pv.scale_pct >= 100 ? (pv.tier ? 5 : 3) : 
 static void run_huge(uint64_t idx, pv_rng* rng) {
     static const uint64_t LEN[5] = { (1ull << 31) + 100, (1ull << 31) - 1, 1ull << 31, (1ull << 32) + 5, (1ull << 32) - 1 };
     uint64_t n = LEN[idx % 5];
+    pv_case_watchdog(300);            /* touching 2-4 GiB takes seconds, not milliseconds */
     char* big = mmap(NULL, n + 1, PROT_READ | PROT_WRITE, MAP_PRIVATE | MAP_ANONYMOUS | MAP_NORESERVE, -1, 0);
     if (big == MAP_FAILED) { PV_COUNT("huge.skipped(no address space)", 1); return; }
     memset(big, 'a', n); big[n] = 0;
